@@ -679,6 +679,10 @@ func pmRealMain(args []string) {
 	cleanup = append(cleanup, func() { os.RemoveAll(tmp) })
 	os.Setenv("TMPDIR", tmp)
 	os.Setenv("ZNH_PM_REAL", "1")
+	// a master may itself be started from an environment that already carries these variables (a start script, another
+	// zinc worker): what it hands to its workers is ITS configuration, whatever it inherited
+	os.Setenv("ZINC_EXEC_TIMEOUT", "600")
+	os.Setenv("ZINC_PIPE_ID", "inherited-from-elsewhere")
 	if os.Getenv("ZNH_DEBUG") == "" {
 		log.SetOutput(io.Discard)
 		if dn, err := os.OpenFile(os.DevNull, os.O_RDWR, 0); err == nil {
